@@ -2329,3 +2329,27 @@ def f_prebuilt_events(case):
     for i in range(n // 2):
         sim.schedule(Event(time=T(2 + 4 * i), event_type="Late", target=srv, context={"prio": 1, "created_at": T(2 + 4 * i)}))
     return Scenario(sim, workload=3 * n + 50)
+
+
+def _evict_family(idx, name):
+    """One family per eviction policy (write-through, so the policy is the only source of variation): every policy
+    is exercised in every run instead of one CachedStore scenario in ten."""
+    def build_(case):
+        from happysimulator.components.datastore import CachedStore, KVStore
+        k = K(case)
+        holder = {}
+        kv = KVStore("db", read_latency=ticks(1 + k[0] % 3), write_latency=ticks(1 + k[1] % 3))
+        for i, key in enumerate(KEYS[:10]):
+            kv.put_sync(key, i)
+        cs = CachedStore("cache", kv, cache_capacity=2 + k[2] % 3, eviction_policy=mk_eviction(idx, case["seed"], k[3], holder),
+                         cache_read_latency=ticks(1), write_through=True)
+        holder["e"] = cs
+        workers, evs = kv_workers(cs, case, 3, 30, 10 + idx, ops=("put", "get", "get", "get", "delete"))
+        sim = mksim([kv, cs] + workers, 1500, events=evs)
+        return Scenario(sim, workload=90, extra=lambda: {"logs": [w.log for w in workers], "cached": sorted(cs.get_cached_keys())})
+    build_.__name__ = f"f_evict_{name}"
+    return build_
+
+
+for _i, _n in enumerate(EVICTION_NAMES):
+    family("evict_" + _n.replace("-", "_"), "strkeys")(_evict_family(_i, _n))
